@@ -628,6 +628,7 @@ class Z3Tr:
         self._arr_seen = set()
         self._rng_seen = set()
         self.uses_uf = False
+        self.uf_apps: List[Tuple[str, List[Any], Any]] = []  # (function, argument terms, application term) for refinement
 
     # -- helpers -----------------------------------------------------------
     def alias_term(self, name: str):
@@ -644,7 +645,18 @@ class Z3Tr:
     def _closed(self, e):
         """closed subtree: Python's own arithmetic defines the value (mirrors constant folding); None if compound"""
         try:
-            v = pyeval(e, Heap(), {})
+            h = Heap()
+            h.reading = self.reading
+            v = pyeval(e, h, {})
+            # an aggregate over an enumerated set with coinciding elements has two admissible readings: encode both
+            h2 = Heap()
+            h2.reading = 'set' if self.reading == 'list' else 'list'
+            try:
+                v2 = pyeval(e, h2, {})
+                if not value_equal(v, v2):
+                    self.dual = True
+            except Undef:
+                self.dual = True
         except Undef:
             return None, z3.BoolVal(False)
         try:
@@ -803,6 +815,9 @@ class Z3Tr:
             cons = [n >= 0, n <= self.K]
             empty_real = z3.Or(l > h, z3.And(l == h, z3.BoolVal(exmin or exmax)))
             cons.append(z3.Implies(empty_real, n == 0))
+            # bounds that happen to be integers lo <= hi: the length is the integer count, as for literal bounds
+            cnt = z3.ToInt(h) - z3.ToInt(l) + 1 - (1 if exmin else 0) - (1 if exmax else 0)
+            cons.append(z3.Implies(z3.And(z3.IsInt(l), z3.IsInt(h), l <= h), n == z3.If(cnt < 0, 0, cnt)))
             for i in range(self.K):
                 x = RELEM(l, h, em, eM, z3.IntVal(i))
                 inr = z3.And(x > l if exmin else x >= l, x < h if exmax else x <= h)
@@ -867,6 +882,7 @@ class Z3Tr:
             self.uses_uf = True
             # symbolic exponent: exact on the exponents the rewriting rules single out, uninterpreted elsewhere
             val = z3.If(y == 0, z3.RealVal(1), z3.If(y == 1, x, z3.If(y == 2, x * x, z3.If(y == -1, 1 / x, POW(x, y)))))
+            self.uf_apps.append(('pow', [x, y], POW(x, y)))
             dfn = z3.If(z3.Or(y == 0, y == 1, y == 2), z3.BoolVal(True), z3.If(y == -1, x != 0,
                         z3.And(POWDEF(x, y), z3.IsInt(y), z3.Or(y >= 0, x != 0))))
             return Val.N(val), z3.And(d, dfn)
@@ -927,7 +943,10 @@ class Z3Tr:
                 d = z3.And(*defs)
             if name == 'gcd':
                 self.uses_uf = True
-                r = uf('gcd', len(nums))(*[z3.If(g, x, 0) for g, x in nums]) if nums else z3.RealVal(0)
+                gargs = [z3.If(g, x, 0) for g, x in nums]
+                r = uf('gcd', len(nums))(*gargs) if nums else z3.RealVal(0)
+                if nums:
+                    self.uf_apps.append(('gcd', gargs, r))
                 return Val.N(r), d
             import hashlib
             key = hashlib.sha1(('|'.join(g.sexpr() + ':' + x.sexpr() for g, x in nums)).encode()).hexdigest()[:16]
@@ -975,7 +994,9 @@ class Z3Tr:
         if name in ('roll', 'pitch', 'yaw') and len(vs) == 1:
             f = z3.Function(f'f_{name}_msg', Val, z3.RealSort())
             return Val.N(f(v0)), vs[0][1]
-        return Val.N(uf(name, len(xs))(*xs)), d
+        app = uf(name, len(xs))(*xs)
+        self.uf_apps.append((name, list(xs), app))
+        return Val.N(app), d
 
 
 # ---------------------------------------------------------------------------
